@@ -294,7 +294,13 @@ def log_to_history(tasks, obs, hd_ties):
             else:
                 continue
             if q and q["t"] <= dec_t and q["t"] <= h["dl"]:
-                via = "0"   # decided after the cancellation: ctx1.Done() is ready (doneChan, if also ready, carries the same pair)
+                if he["idx"] < q["idx"] and he["t"] == q["t"] == dec_t and saw == "0":
+                    # the handler returned (and published its own pair) BEFORE the cancellation, in the same instant, and
+                    # the dispatcher decided in that instant too: doneChan (the handler's pair) and ctx1.Done() are both
+                    # ready when it looks -- the select may take either: both resolutions are enumerated
+                    via = "?"
+                else:
+                    via = "0"   # decided after the cancellation: ctx1.Done() is ready (doneChan, if also ready, carries the same pair)
             elif dec_t < h["dl"]:
                 via = "1"
             elif dec_t == h["dl"] and tie and saw == "?":
